@@ -978,7 +978,9 @@ class ManifestRecursiveLoader:
                             raise ManifestIncompatibleEntry(
                                 out[fullpath][1], e, diff)
                         # otherwise, make sure we have all checksums
-                        out[fullpath][1].checksums.update(e.checksums)
+                        if e.tag != 'IGNORE':
+                            out[fullpath][1].checksums.update(
+                                e.checksums)
                         # and drop the duplicate
                         entries_to_remove.append(e)
                     else:
